@@ -1002,6 +1002,9 @@ class ModelSession:
     def rollback(self):
         self.close()
 
+    def flush(self):
+        """SQLAlchemy: send pending ORM changes to the connection (statements executed here take effect at once)"""
+
 
 # ------------------------------------------------------------------ model hash / codec
 class ModelHasher:
